@@ -1,11 +1,15 @@
 #!/bin/sh
 # Runs every independent behaviour-preserving refactoring in checker/mutants/benign/*.diff against all checks
 # (each applied to a scratch worktree of /repo HEAD). Any line printed below a patch name is a false alarm.
+# JOBS=n runs n patches at a time (default 3).
 cd "$(dirname "$0")/.."
+./check C01 quick >/dev/null 2>&1   # make sure the binary is current before the parallel runs
+T=$(mktemp -d)
+ls checker/mutants/benign/*.diff | xargs -P "${JOBS:-3}" -I{} sh -c '
+  out=$(sh tools/try_patch.sh "{}" all 2>&1 | grep -E "^VIOLATION|BROKEN|error:" | sed "s/replay=[^ ]*//")
+  if [ -n "$out" ]; then { echo "== {}"; echo "$out"; } > "'$T'/$(basename {}).alarm"; fi'
 rc=0
-for p in checker/mutants/benign/*.diff; do
-  out=$(sh tools/try_patch.sh "$p" all 2>&1 | grep -E "^VIOLATION|BROKEN|error:" | sed 's/replay=[^ ]*//')
-  if [ -n "$out" ]; then echo "== $p"; echo "$out"; rc=1; fi
-done
+for a in "$T"/*.alarm; do [ -e "$a" ] && { cat "$a"; rc=1; }; done
+rm -rf "$T"
 [ $rc = 0 ] && echo "all benign refactorings silent"
 exit $rc
